@@ -7,6 +7,8 @@
    bool cast of the mask.  [solve] stands for np.linalg.pinv + einsum with the contract
      sound: an answer solves the normal equations [NE] of min |y - sum_i c_i B_i|^2, and
      total: an independent family gets an answer (pinv always returns).
+   (Over a field such a solver exists - the Gram matrix of an independent family is invertible -
+   but that is not proved here; over R the pair is the trusted contract of numpy's pinv.)
    [indep k N B]: the k masked modes, sampled on the N pixels, are linearly independent.
    [basis_mat mask modes nrm crd i p] = pixel p (row-major) of zernike(mask, modes[i], nrm, crd).
    [scatter n modes cs] = the coefficient vector handed to zernike_compose: cs_i at position
